@@ -128,6 +128,15 @@ CHECKS = {
         technique="Coq proof of totality for the transcribed panic sites (corollaries of the C07/C10/C13/C20 models plus a CodeId string model) + robustness run (fuzzing) for the remainder",
         category="proof",
         design="4/C08"),
+    "C05": dict(
+        text="Coq theorems C05_contains_and_enumerated_max (on any strictly sorted entry list a successful lookup returns start <= address < end, the entry is enumerated and no entry lies in (start, address]), "
+             "C05_build_sorted (sort + dedup yields a strictly sorted list for any sources), C05_forms_agree / C05_forms_offset (relative, stated-virtual and file-offset forms give the same answer) and the "
+             "jitdump analogues. Tied to samply-symbols by looking addresses up in all forms on fixture binaries (ELF, Mach-O, PE), generated ELF objects, Breakpad and jitdump files; the entry list comes from a "
+             "cfg(samply_verif) hook; a property checker and the model are evaluated in Coq; each batch is repeated from 8 threads.",
+        note="Trusted: Coq kernel; the hook; demangle_any as oracle for the name clause; harness h_symbols. Not modelled: how `object` symbols are filtered into the entry list; PDB (fixtures emptied); "
+             "thread-safety is exercised, not proved (the model is a pure function of the entry list).",
+        technique="Coq proof (characterisation of the binary-search lookup on strictly sorted lists; insertion-sort/dedup invariants) + differential correspondence run with a property checker evaluated by vm_compute",
+        design="4/C05"),
 }
 
 NOT_YET = "check not built yet in this development (planned: see DESIGN.md section 4); no claim is made"
@@ -174,7 +183,7 @@ def main():
         f.write("\n")
 
 NA = {}
-HOOK_COMMITS = ["c502d39b"]
+HOOK_COMMITS = ["c502d39b", "1e70e941"]
 
 if __name__ == "__main__":
     main()
